@@ -59,6 +59,7 @@ structure Gap (f : Forest) (a : Nat) (init : List Frame) (fr : Frame) (l0 : List
   hNk : N.kids = []
   hAn : A.value.category = .normal
   hAt : A.value.isText = false
+  hAd : A.value.isDocument = false
 
 theorem gap_of_textGap {f : Forest} (hi : f.Inv) {a : Nat} (hg : f.textGap a = true) :
     ∃ init fr l0 P A N r0 ps ns, Gap f a init fr l0 P A N r0 ps ns := by
@@ -98,8 +99,11 @@ theorem gap_of_textGap {f : Forest} (hi : f.Inv) {a : Nat} (hg : f.textGap a = t
       validTree (!f.everOff) c.self = true ∧ validTree (!f.everOff) N = true ∧
       validList (!f.everOff) r0 = true := by
     simpa only [validList_append, validList_cons, validList_nil, Bool.and_true, Bool.and_eq_true] using k2
+  have hAd : c.self.value.isDocument = false := by
+    have := K.allowed c.self (by simp)
+    cases hv : fr.v <;> cases hd : c.self.value.isDocument <;> simp_all [kidAllowed]
   exact ⟨init, fr, l0, P, c.self, N, r0, ps, ns, lc, hoff, hP, hN,
-    kids_nil_of_text k2'.1.2 hPt, kids_nil_of_text k2'.2.2.1 hNt, hAn, hAt⟩
+    kids_nil_of_text k2'.1.2 hPt, kids_nil_of_text k2'.2.2.1 hNt, hAn, hAt, hAd⟩
 
 section gap
 variable {f : Forest} {a : Nat} {init : List Frame} {fr : Frame} {l0 : List HTree} {P A N : HTree}
@@ -154,7 +158,7 @@ theorem Gap.sibs_b (g : Gap f a init fr l0 P A N r0 ps ns) (nd : f.allHandles.No
     (f.dropSubtree a).value? b = f.value? b ∧ (f.dropSubtree a).ancestors b = f.ancestors b ∧
     (f.dropSubtree a).isRoot b = f.isRoot b ∧ (f.dropSubtree a).get? b = f.get? b ∧
     (∀ x, (f.prevSibling b = some x ∨ f.nextSibling b = some x) →
-      (f.dropSubtree a).textOf x = f.textOf x) := by
+      (f.dropSubtree a).textOf x = f.textOf x ∧ (f.ancestors x).contains a = false) := by
   obtain ⟨pathb, lb, Bn, rb, locb⟩ := exists_loc hb
   have v := dropView locb nd g.mem hanc
   have hsub : a ∉ handlesList Bn.kids := by
@@ -206,7 +210,8 @@ theorem Gap.sibs_b (g : Gap f a init fr l0 P A N r0 ps ns) (nd : f.allHandles.No
   · rw [v.get? hsub, get?_of_loc locb nd]
   · intro x hx
     have sib : ∀ (lx : List HTree) (n : HTree) (rx : List HTree), lb ++ Bn :: rb = lx ++ n :: rx →
-        n.handle ≠ a → (f.dropSubtree a).textOf n.handle = f.textOf n.handle := by
+        n.handle ≠ a → (f.dropSubtree a).textOf n.handle = f.textOf n.handle ∧
+          (f.ancestors n.handle).contains a = false := by
       intro lx n rx he hne
       have locn : Loc f.roots n.handle pathb lx n rx := ⟨by rw [locb.eq, he], rfl⟩
       have hancn : (f.ancestors n.handle).contains a = false := by
@@ -214,7 +219,7 @@ theorem Gap.sibs_b (g : Gap f a init fr l0 P A N r0 ps ns) (nd : f.allHandles.No
         simp only [List.contains_eq_mem, List.mem_cons, List.mem_reverse, List.mem_map,
           decide_eq_false_iff_not, not_or, not_exists, not_and]
         exact ⟨fun e => hne e.symm, fun fr' hfr' e => hpathb fr' hfr' e⟩
-      exact (dropView locn nd g.mem hancn).textOf locn nd
+      exact ⟨(dropView locn nd g.mem hancn).textOf locn nd, hancn⟩
     rcases List.eq_nil_or_concat pathb with h0 | ⟨ini, fr', h0⟩
     · subst h0
       rw [prevSibling_of_loc_nil locb nd, nextSibling_of_loc_nil locb nd] at hx
